@@ -7,7 +7,8 @@ Definition ninst (s : st) : nat := length (insts s).
 (* events that are not API calls and not a timer callback *)
 Definition passive (e : ev) : bool :=
   match e with
-  | EProceed _ _ | EWake _ _ | EReturn _ _ | EBook _ | EAdvance _ | EWaitExited _ | EWSect _ | EWWake _ | EWCancel _ | EWErr _ _ => true
+  | EProceed _ _ | EWake _ _ | EReturn _ _ | EBook _ | EAdvance _ | EWaitExited _ | EWSect _ | EWWake _ | EWCancel _ | EWErr _ _
+  | ECancelRoot _ => true
   | _ => false
   end.
 
@@ -36,28 +37,35 @@ Proof.
   - apply G; auto.
 Qed.
 
-(* passive events never start an instance and never change which routine is set or the context *)
+(* passive events never start an instance and never change which routine is set; the container's context changes only
+   in that a WaitExited section forgets a root context that was cancelled by its owner *)
 Lemma passive_no_spawn s e : passive e = true ->
-  ninst (step repaired s e) = ninst s /\ routine (step repaired s e) = routine s /\ kctx (step repaired s e) = kctx s.
+  ninst (step repaired s e) = ninst s /\ routine (step repaired s e) = routine s /\
+  (kctx (step repaired s e) = kctx s \/ (kctx (step repaired s e) = 0 /\ root_dead s (kctx s) = true)).
 Proof.
   destruct e; cbn [passive step]; intros Hp; try discriminate.
   - unfold proceed. destruct (nth_error (insts s) i) as [x|] eqn:Ex; [|auto]. destruct (ipcv x); auto.
     destruct (iwait x); [destruct (pred_closed s x && icanc x); [destruct enter|destruct (pred_closed s x); [|destruct (icanc x); cbn [fx_wait repaired]]]|destruct (icanc x)];
-      repeat split; eapply ninst_seti; eauto.
+      repeat split; auto; eapply ninst_seti; eauto.
   - unfold wake. destruct (nth_error (insts s) i) as [x|] eqn:Ex; [|auto]. destruct (ipcv x); auto.
     + destruct (pred_closed s x && icanc x); [destruct enter|destruct (pred_closed s x); [|destruct (icanc x); cbn [fx_wait repaired]]];
-        auto; repeat split; eapply ninst_seti; eauto.
-    + destruct (pred_closed s x); auto. repeat split; eapply ninst_seti; eauto.
+        auto; repeat split; auto; eapply ninst_seti; eauto.
+    + destruct (pred_closed s x); auto. repeat split; auto; eapply ninst_seti; eauto.
   - unfold fn_return. destruct (nth_error (insts s) i) as [x|] eqn:Ex; [|auto]. destruct (ipcv x); auto.
-    repeat split; eapply ninst_seti; eauto.
-  - apply bookkeep_frame.
+    repeat split; auto; eapply ninst_seti; eauto.
+  - destruct (bookkeep_frame s i) as (A & B & C). auto.
   - auto.
   - auto.
   - unfold wait_section. destruct (nth_error (waiters s) a) as [w|]; [|auto]. destruct (wpcv w); auto.
-    destruct (getch (b s)) as [b' ch]. destruct (match routine s with Some r => _ | None => _ end); [|destruct (wcanc w)]; auto.
+    assert (G : ninst (wait_sect_at (norm s) a w) = ninst (norm s) /\ routine (wait_sect_at (norm s) a w) = routine (norm s) /\
+                kctx (wait_sect_at (norm s) a w) = kctx (norm s)).
+    { unfold wait_sect_at. destruct (getch (b (norm s))) as [b' ch].
+      destruct (match routine (norm s) with Some r => _ | None => _ end); [|destruct (wcanc w)]; auto. }
+    destruct G as (G1 & G2 & G3). rewrite G1, G2, G3. unfold norm. destruct (root_dead s (kctx s)) eqn:Ed; auto.
   - unfold wait_wake. destruct (nth_error (waiters s) a) as [w|]; [|auto]. destruct (wpcv w); auto. destruct (closed (b s) ch); auto.
   - unfold wait_cancel. destruct (nth_error (waiters s) a) as [w|]; [|auto]. destruct (wpcv w); auto.
   - unfold wait_errch. destruct (nth_error (waiters s) a) as [w|]; [|auto]. destruct (wpcv w); auto.
+  - unfold cancel_root, ninst. cbn [insts routine kctx set_insts set_dead]. rewrite map_length. auto.
 Qed.
 
 (* start without force on a record that succeeded does nothing *)
@@ -133,9 +141,10 @@ Proof.
   destruct (_ && is_nil _); [reflexivity|]. destruct (_ && _ && _); [reflexivity|]. cbn [fst cblog do_bcast set_b].
   destruct (_ && negb (Nat.eqb c 0)); [rewrite cblog_start_rec|]; apply (cblog_stop_rec (set_kctx s c)).
 Qed.
-Lemma cblog_set_routine_locked s f arg : cblog (fst (set_routine_locked repaired s f arg)) = cblog s.
+Lemma cblog_norm s : cblog (norm s) = cblog s. Proof. unfold norm. destruct (root_dead s (kctx s)); reflexivity. Qed.
+Lemma cblog_set_routine_locked_n s f arg : cblog (fst (set_routine_locked_n repaired s f arg)) = cblog s.
 Proof.
-  unfold set_routine_locked. destruct (routine s) as [p|].
+  unfold set_routine_locked_n. destruct (routine s) as [p|].
   - destruct (cblog_cancel_inst s (rcancel (getr s p))) as [A _].
     destruct (negb (Nat.eqb f 0)); cbn [fst cblog do_bcast set_b].
     + destruct (negb (Nat.eqb _ 0)); [rewrite cblog_start_rec|]; exact A.
@@ -143,12 +152,16 @@ Proof.
   - destruct (negb (Nat.eqb f 0)); cbn [fst cblog do_bcast set_b]; [|reflexivity].
     destruct (negb (Nat.eqb _ 0)); [rewrite cblog_start_rec|]; reflexivity.
 Qed.
-Lemma cblog_restart_routine s : cblog (fst (restart_routine repaired s)) = cblog s.
+Lemma cblog_set_routine_locked s f arg : cblog (fst (set_routine_locked repaired s f arg)) = cblog s.
+Proof. unfold set_routine_locked. now rewrite cblog_set_routine_locked_n, cblog_norm. Qed.
+Lemma cblog_restart_routine_n s : cblog (fst (restart_routine_n repaired s)) = cblog s.
 Proof.
-  unfold restart_routine. destruct (routine s) as [r|]; [|reflexivity].
+  unfold restart_routine_n. destruct (routine s) as [r|]; [|reflexivity].
   destruct (cblog_cancel_inst s (rcancel (getr s r))) as [A _].
   destruct (Nat.eqb _ 0); cbn [fst cblog do_bcast set_b]; [exact A|]. rewrite cblog_start_rec. exact A.
 Qed.
+Lemma cblog_restart_routine s : cblog (fst (restart_routine repaired s)) = cblog s.
+Proof. unfold restart_routine. now rewrite cblog_restart_routine_n, cblog_norm. Qed.
 Lemma cblog_update_sr s : cblog (fst (update_sr repaired s)) = cblog s.
 Proof.
   unfold update_sr. pose proof (cblog_set_routine_locked s (if negb (Nat.eqb (sfn s) 0) && negb (N.eqb (sval s) 0) then sfn s else 0) (sval s)) as G.
@@ -188,10 +201,12 @@ Proof.
   - reflexivity.
   - apply cblog_timer_cb.
   - reflexivity.
-  - unfold wait_section. fr.
+  - unfold wait_section. destruct (nth_error (waiters s) a) as [w|]; [|reflexivity]. destruct (wpcv w); try reflexivity.
+    rewrite <- (cblog_norm s). unfold wait_sect_at. fr.
   - unfold wait_wake. fr.
   - unfold wait_cancel. fr.
   - unfold wait_errch. fr.
+  - reflexivity.
 Qed.
 
 (* a bookkeeping section reports the instance's own outcome to every callback exactly once iff the instance is
@@ -243,16 +258,15 @@ Proof.
   - rewrite getr_bc, getr_setr_same by exact Hrl. cbn [rerr rsucc rexited rexit]. repeat split; auto. intros l' k' E. discriminate.
 Qed.
 
-(* WaitExited: what one section returns *)
-Lemma wait_section_result s a w o :
-  nth_error (waiters s) a = Some w -> wpcv w = WGate ->
-  wpcv (nth a (waiters (wait_section s a)) waiter0) = WRet o ->
+(* WaitExited: what one section returns (the section first forgets a root context cancelled by its owner) *)
+Lemma wait_sect_at_result s a w o :
+  a < length (waiters s) ->
+  wpcv (nth a (waiters (wait_sect_at s a w)) waiter0) = WRet o ->
   (exists r, routine s = Some r /\ kctx s <> 0 /\ (rexited (getr s r) = true \/ rsucc (getr s r) = true) /\ o = rerr (getr s r))
   \/ (wrinr w = true /\ (routine s = None \/ kctx s = 0) /\ o = ONil)
   \/ (wcanc w = true /\ o = OCanc).
 Proof.
-  intros Hw Hp. unfold wait_section. rewrite Hw, Hp.
-  assert (Hl : a < length (waiters s)) by (eapply nth_error_nth_len; eauto).
+  intros Hl. unfold wait_sect_at.
   destruct (getch (b s)) as [b' ch].
   destruct (routine s) as [r|] eqn:Er.
   - destruct (Nat.eqb_spec (kctx s) 0) as [Ek|Ek]; cbn [negb].
@@ -266,6 +280,22 @@ Proof.
   - destruct (wrinr w) eqn:Ei.
     + unfold setw. cbn [waiters set_waiters set_b]. rewrite nth_set_nth_same by exact Hl. cbn. intros E. inversion E. right. left. auto.
     + destruct (wcanc w) eqn:Ec; unfold setw; cbn [waiters set_waiters set_b]; rewrite nth_set_nth_same by exact Hl; cbn; intros E; inversion E. right. right. auto.
+Qed.
+
+Lemma wait_section_result s a w o :
+  nth_error (waiters s) a = Some w -> wpcv w = WGate ->
+  wpcv (nth a (waiters (wait_section s a)) waiter0) = WRet o ->
+  (exists r, routine s = Some r /\ kctx s <> 0 /\ root_dead s (kctx s) = false /\
+             (rexited (getr s r) = true \/ rsucc (getr s r) = true) /\ o = rerr (getr s r))
+  \/ (wrinr w = true /\ (routine s = None \/ kctx s = 0 \/ root_dead s (kctx s) = true) /\ o = ONil)
+  \/ (wcanc w = true /\ o = OCanc).
+Proof.
+  intros Hw Hp. unfold wait_section. rewrite Hw, Hp. intros H.
+  assert (Hl : a < length (waiters (norm s))) by (unfold norm; destruct (root_dead s (kctx s)); eapply nth_error_nth_len; eauto).
+  destruct (wait_sect_at_result (norm s) a w o Hl H) as [(r & A & B & C & D) | [(A & B & C) | A]]; [| |auto].
+  - left. exists r. unfold norm in *. destruct (root_dead s (kctx s)) eqn:Ed; [cbn in B; contradiction|]. auto.
+  - right. left. split; [exact A|]. split; [|exact C]. unfold norm in B. destruct (root_dead s (kctx s)) eqn:Ed; [auto|].
+    destruct B; auto.
 Qed.
 
 (* the retry: after the deadline the timer is fired, and its callback restarts the routine *)
